@@ -261,6 +261,7 @@ def run(chk):
     # parked as "pending input" while nothing is paused - nobody resumes the parser, the rest of the body is never delivered
     stale_rule(chk, repo)
     resume_rules(chk, repo)
+    hunt4_rules(chk, repo)
     hp = repo.func(HP, "HttpParser.feed_data")
     st = [s for s, _b in K.stmts(hp, "self._payload_has_more_data = payload_state == PayloadState.PAYLOAD_HAS_PENDING_INPUT")]
     loop = [w for w in ast.walk(hp.node) if isinstance(w, ast.While) and "self._payload_has_more_data" in norm.raw(w.test)]
@@ -395,6 +396,40 @@ def run(chk):
     from rules import C08
 
     chk.include(C08.run, ("C08.wake.exception",), ("C08.wake.exception", "C09.errors.seen"))
+
+
+def hunt4_rules(chk, repo):
+    """Rules written after the fourth defect hunt (F264, F265): the multipart part decoder agrees with the HTTP body decoder."""
+    MP = "aiohttp/multipart.py"
+    # ---- C09.deflate.sniff: `deflate` is read in both spellings (zlib-wrapped per RFC 1950, or the raw stream many senders produce) -----------------
+    n = 0
+    for m in repo.all_modules():
+        if "_websocket" in m.rel:
+            continue  # permessage-deflate is raw deflate by definition (RFC 7692): nothing to choose
+        for fn in m.functions.values():
+            for c in prog.calls_in(fn.node):
+                if norm.raw(c.func) != "ZLibDecompressor":
+                    continue
+                kv = next((k.value for k in c.keywords if k.arg == "suppress_deflate_header"), None)
+                if kv is None:
+                    continue
+                n += 1
+                sniff_here = "& 15" in norm.raw(kv)
+                sniff_pc = any("& 15" in l.text for c_ in PC.pc(K.stmt_of(c), raw=True) for l in c_)
+                if sniff_here or sniff_pc:
+                    chk.ok("C09.deflate.sniff", c, f"{fn.qualname}: raw or zlib-wrapped deflate is chosen from the first data byte (CM nibble)")
+                else:
+                    chk.violation("C09.deflate.sniff", c, K.short(c, 70), "suppress_deflate_header=not data or data[0] & 0xF != 8",
+                                  f"{fn.qualname} always builds a raw-deflate decoder: a part (or body) sent with `Content-Encoding: deflate` in the RFC format (zlib.compress) fails with zlib.error `invalid stored block lengths` and the handler answers 500, while the HTTP-level decoder accepts both spellings of the same bytes")
+    chk.expect_count("C09.deflate.sniff", n, 3, "ZLibDecompressor(...) constructions that choose the deflate framing")
+    # ---- C09.complete (multipart): a part that ends inside its compressed stream is an error, as for an HTTP body -------------------------------------
+    rd = repo.func(MP, "BodyPartReader.read")
+    trunc = [r for r, _c in K.raises_in(rd) if any(not l.pos and l.text.endswith("_decompressor.eof") for l in PC.units(PC.pc(r, raw=True)))]
+    if trunc:
+        chk.ok("C09.complete", trunc[0], "BodyPartReader.read(decode=True): a decompressor that has not reached the end of its stream when the part ends is reported (truncated part)")
+    else:
+        chk.violation("C09.complete", rd, "return decoded_data", "if self._decompressor is not None and not self._decompressor.eof: raise ValueError(...)",
+                      "a multipart part with `Content-Encoding: gzip` whose compressed stream is cut short (boundary framing intact) is returned as a complete body by read(decode=True) / text() / json() / form(): 34618 of 90000 bytes, no error, the handler answers 200 - the same bytes as an HTTP-level gzip body get 400")
 
 
 def resume_rules(chk, repo):
